@@ -260,9 +260,9 @@ def near(draw, t, v):
         return bytes(b)
     if p == "address":
         b, ep = v
-        k = draw(st.integers(0, 3))
-        if k == 0:
-            return (b, draw(entrypoints()))
+        k = draw(st.integers(0, 5))
+        if k in (0, 4, 5):  # same destination, other entrypoint (names on both sides of "default", and none at all)
+            return (b, draw(st.one_of(entrypoints(), st.sampled_from(["", "a", "approve", "d", "defaul", "default_", "e", "mint"]))))
         if k == 1:  # same hash, other kind
             h = b[2:] if b[0] == 0 else b[1:21]
             return draw(st.sampled_from([(b"\x00" + bytes([tg]) + h, ep) for tg in range(4)]
